@@ -72,13 +72,32 @@ func c15Key(a string) string {
 	return norm.NFC.String(strings.ToLower(norm.NFC.String(a[:i]))) + "@" + norm.NFC.String(strings.ToLower(norm.NFC.String(d)))
 }
 
+// c15KeyCP: the case-preserving e-mail normalisation (precis_email): the local part keeps its
+// letter case (NFC only), the domain is compared as for c15Key; "" if s is not an address.
+func c15KeyCP(a string) string {
+	i := strings.LastIndex(a, "@")
+	if i <= 0 || i == len(a)-1 {
+		return ""
+	}
+	d, err := idna.ToUnicode(strings.ToLower(a[i+1:]))
+	if err != nil {
+		d = a[i+1:]
+	}
+	return norm.NFC.String(a[:i]) + "@" + norm.NFC.String(strings.ToLower(norm.NFC.String(d)))
+}
+
 // c15Entitled: the reference entitlement function.
 func c15Entitled(cfg c15Cfg, user, addr string) bool {
 	if user == "" || addr == "" {
 		return false
 	}
 	u, a := user, addr
-	if cfg.Norm != "noop" {
+	if cfg.Norm == "precis_email" {
+		u, a = c15KeyCP(user), c15KeyCP(addr)
+		if u == "" || a == "" {
+			return false // the normalisation refuses what is not an address
+		}
+	} else if cfg.Norm != "noop" {
 		u, a = c15Key(user), c15Key(addr)
 	}
 	prepared := []string{a}
@@ -211,7 +230,7 @@ func TestVerifC15(t *testing.T) {
 	defer r.Finish()
 	module.RegisterInstance(c15U2E, nil)
 	module.RegisterInstance(c15Prep, nil)
-	r.Rule("entitlement tables {identity, address lists, domain entry, '*'} x prepare_email {identity, alias map} x normalisation {auto, noop} x action directives {default, reject with a custom SMTP reply} x authenticated user {entitled, other, none; case / NFD spellings} x MAIL FROM {entitled, alias, spelling variants incl. A-label, not entitled, a sharp-s domain next to its ss twin} x header layouts {single From, two addresses in one From, two From fields in both orders, group syntax, display name containing an address, RFC 2047 display name, folded field, missing From, an empty From field before / after a filled one} x Sender {absent, entitled, not entitled}; thorough tier: more addresses (subdomain, suffix-confusable domains, plus-tag, upper-case alias), layouts (bare addr-spec, comments, three From fields, group followed by an address, folded lists, empty first line) and Sender shapes (display name, two Sender fields, upper-case); each through the real check.authorize_sender initialised from configuration (CheckSender + CheckBody); a message counts as accepted when neither result carries the reject or quarantine flag (what the pipeline acts on); oracle: every acceptance is justified by the reference entitlement function (authenticated, envelope sender entitled, every address of every From field entitled or an entitled Sender present). Non-trivial: distinct accepted cases")
+	r.Rule("entitlement tables {identity, address lists, domain entry, '*'} x prepare_email {identity, alias map} x normalisation {auto, noop, precis_email (case-preserving)} x action directives {default, reject with a custom SMTP reply} x authenticated user {entitled, other, none; case / NFD spellings} x MAIL FROM {entitled, alias, spelling variants incl. A-label, not entitled, a sharp-s domain next to its ss twin} x header layouts {single From, two addresses in one From, two From fields in both orders, group syntax, display name containing an address, RFC 2047 display name, folded field, missing From, an empty From field before / after a filled one} x Sender {absent, entitled, not entitled}; thorough tier: more addresses (subdomain, suffix-confusable domains, plus-tag, upper-case alias), layouts (bare addr-spec, comments, three From fields, group followed by an address, folded lists, empty first line) and Sender shapes (display name, two Sender fields, upper-case); each through the real check.authorize_sender initialised from configuration (CheckSender + CheckBody); a message counts as accepted when neither result carries the reject or quarantine flag (what the pipeline acts on); oracle: every acceptance is justified by the reference entitlement function (authenticated, envelope sender entitled, every address of every From field entitled or an entitled Sender present). Non-trivial: distinct accepted cases")
 	if rp := r.Replay(); rp != nil {
 		var c c15Case
 		if json.Unmarshal(rp, &c) != nil {
@@ -232,6 +251,8 @@ func TestVerifC15(t *testing.T) {
 		{Name: "domain/auto", Norm: "auto", U2E: map[string][]string{"alice": {"example.org"}, "root": {"*"}}},
 		{Name: "lists+prepare/auto", Norm: "auto", U2E: map[string][]string{"alice": {"alice@example.org"}}, Prep: map[string][]string{"alias@example.org": {"alice@example.org"}, "shared@example.org": {"alice@example.org", "bob@example.org"}}},
 		{Name: "lists/noop", Norm: "noop", U2E: map[string][]string{"alice": {"alice@example.org"}}},
+		{Name: "lists/precis_email", Norm: "precis_email", U2E: map[string][]string{"alice@example.org": {"alice@example.org", "alias@example.org"}, "renée@пример.рф": {"renée@пример.рф"}}},
+		{Name: "identity/precis_email", Norm: "precis_email"},
 		{Name: "lists/auto/custom-replies", Norm: "auto", Actions: "custom-replies", U2E: map[string][]string{"alice": {"alice@example.org", "alias@example.org"}, "bob": {"bob@example.org"}}},
 	}
 	users := []string{"alice", "ALICE", "alice@example.org", "Alice@EXAMPLE.org", "bob", "root", "mallory@evil.example", "", "renée@пример.рф", nfd("renée") + "@xn--e1afmkfd.xn--p1ai"}
